@@ -131,4 +131,38 @@ META = {
                 "model and attempts on clones of the receiver's durable state; GroupMessageEvent emission is covered by C08",
         "technique": "deterministic simulation with a Byzantine member: fault-catalogue enumeration on envelopes in flight vs authentic-tuple oracle",
     },
+    "C14": {
+        "text": "Seeded sessions on the real secret store of a receiver without network: log deliveries and push deliveries of the "
+                "same messages in every order (push first, log first, repeated), several senders and groups, counters inside, at "
+                "and beyond the message-key window and the reference window (both from {1,2,3,100}), receiver restarts, bit-flipped "
+                "payloads and unknown group references. Soundness on every attempt (original payload, sender, counter, group; "
+                "AlreadyReceived iff the log path had opened the entry), completeness for messages the ratchet model makes "
+                "openable and whose counter is strictly inside the reference window, and non-interference of the two paths.",
+        "design_ref": "section 5, C14; appendix B.1",
+        "note": "window-edge counters are don't-care for completeness (the statement does not fix the edge convention); the service-level "
+                "OutOfStoreSeal/OutOfStoreReceive wrappers are not driven",
+        "technique": "deterministic simulation: seeded push/log delivery schedules with restarts and corruption vs ratchet + reference-window model",
+    },
+    "C05": {
+        "text": "Part (a), secrecy/exactness: multi-party sessions on real secret stores over all three group types; the announcement, taken "
+                "at a drawn point of the sender's history, is offered to the right recipient (must register; exactly the later "
+                "messages become openable per the window model) and to every wrong combination (another party in the group, the right "
+                "recipient in another group incl. one with identical sender-device/recipient-member keys, another claimed sender), "
+                "with every single-bit flip and truncation of the ciphertext. Part (b), completeness: see the root-package part of this check.",
+        "design_ref": "section 5, C05",
+        "note": "X25519/box secrecy is trusted; wrong-party attempts run on clones of the party's durable state",
+        "technique": "deterministic simulation: multi-party wrong-recipient/wrong-group/wrong-sender matrix + ciphertext fault enumeration; simulated group sessions for completeness",
+    },
+    "C11": {
+        "text": "Seeded multi-store histories on real secret stores over SimDisk: accounts grow to several devices by export/import, "
+                "derived keys are first used in both orders, stores restart, the recomputable key-cache class is dropped, imports "
+                "are attempted on used stores and with malformed keys. After every step the cross-store invariants of the "
+                "statement are evaluated over all stores (contact-group symmetry and separation, member key shared by the devices "
+                "of an account and distinct across accounts, distinct device keys, account identity preserved by import, refused "
+                "imports leave the store byte-identical).",
+        "design_ref": "section 5, C11",
+        "note": "the algebra of the derivations is a pure-input clause; the simulated part is order of first use, caching, restart, "
+                "cache loss and refused imports. A torn import (crash between its two writes) is not asserted: the statement does not cover it",
+        "technique": "deterministic simulation: seeded multi-store operation sequences with restart/cache-loss faults, cross-store invariants after every step",
+    },
 }
